@@ -133,9 +133,9 @@ impl Document {
         self.condense_spaces();
         self.condense_newlines();
         self.newlines_to_breaks();
+        self.condense_number_suffixes();
         self.condense_contractions();
         self.condense_dotted_initialisms();
-        self.condense_number_suffixes();
         self.condense_ellipsis();
         self.condense_latin();
         self.match_quotes();
